@@ -25,10 +25,11 @@ const (
 	RRec
 	RTail
 	RRedef // self tail call of a function that REPLACES, in a later evaluation, a function of the same name and arity whose formals have the opposite laziness
+	RTypedTail // self tail call of a typed func declaration (known to the generator while its body is compiled)
 	nRoutes
 )
 
-var routeName = []string{"direct", "alias", "param", "computed", "apply", "map", "typed", "recursion", "selftail", "redef-selftail"}
+var routeName = []string{"direct", "alias", "param", "computed", "apply", "map", "typed", "recursion", "selftail", "redef-selftail", "typed-selftail"}
 
 type Pattern int
 
@@ -39,22 +40,23 @@ const (
 	PLoop
 	PSubst
 	PSubstForce
+	PForceSubst // force, THEN substitute, then force again: the source survives a successful force
 	PEscClos
 	PEscArr
 	nPatterns
 )
 
-var patName = []string{"never", "once", "twice", "loop", "subst", "substforce", "esc-closure", "esc-array"}
+var patName = []string{"never", "once", "twice", "loop", "subst", "substforce", "forcesubst", "esc-closure", "esc-array"}
 
 func (p Pattern) forces() bool { return p != PNever && p != PSubst }
 
 type ArgKind int
 
 const (
-	KT ArgKind = iota // (begin (set cnt (+ cnt 1)) (trace (+ a M)))
-	KFail             // (failk (+ a M)) with failat=1
-	KUnbound          // ub
-	KTypeErr          // (first (+ a M))
+	KT       ArgKind = iota // (begin (set cnt (+ cnt 1)) (trace (+ a M)))
+	KFail                   // (failk (+ a M)) with failat=1
+	KUnbound                // ub
+	KTypeErr                // (first (+ a M))
 	nKinds
 )
 
@@ -130,8 +132,13 @@ var valVariants = []valVariant{
 // caller's caller (9) exist.  Every program runs the caller from (outer 8 9 10).
 type GridCase struct {
 	Bare    int    // position of the bare-variable argument, -1 = none
-	BareSym string // "w" or "k"
-	Val     int    // index into valVariants
+	BareSym string // "w", "k", "k2" or "a" (the caller's let-bound local, 100; the callee binds its own a = 5 around the forces)
+	// PassOn: the formals are handed on, as they are, to a further call before the body sees them
+	// (lazy ones as #p: the call mechanism wraps the SYMBOL #p again, it does not pass the thunk
+	// through).  Recursion routes: the inner call (f (- n 1) #p0 p1 ..), i.e. two further
+	// activations; the other routes: f relays to f2, which has the body.  The body forces three deep.
+	PassOn  bool
+	Val     int // index into valVariants
 	Caller  int // caller kind
 	Split   int // > 0: the first Split forms are a separate, earlier evaluation
 	Shape   Shape
@@ -222,9 +229,9 @@ func listVal(items ...string) string {
 }
 
 // what the body does with formal i under pattern pat
-func action(pat Pattern, name string, lazy bool) *Node {
+func action(pat Pattern, name string, lazy bool, frc func(*Node) *Node) *Node {
 	v := Var(name)
-	f := func() *Node { return CallN("force", Var(name)) }
+	f := func() *Node { return frc(Var(name)) }
 	if !lazy {
 		switch pat {
 		case POnce, PTwice:
@@ -245,6 +252,8 @@ func action(pat Pattern, name string, lazy bool) *Node {
 		return CallN("substitute", v)
 	case PSubstForce:
 		return CallN("list", CallN("substitute", v), f())
+	case PForceSubst:
+		return CallN("list", f(), CallN("substitute", v), f())
 	}
 	return v
 }
@@ -271,6 +280,8 @@ func actionVal(pat Pattern, lazy bool, val, src string, valueThunk bool) string 
 		return src
 	case PSubstForce:
 		return listVal(src, val)
+	case PForceSubst:
+		return listVal(val, src, val)
 	}
 	return "?"
 }
@@ -289,7 +300,7 @@ func (gc *GridCase) Build() {
 	sh, route, pat := gc.Shape, gc.Route, gc.Pat
 	k := len(sh.Lazy)
 	nargs := len(gc.Kinds)
-	rec := route == RRec || route == RTail || route == RRedef
+	rec := route == RRec || route == RTail || route == RRedef || route == RTypedTail
 	failAt := 0
 	for _, kd := range gc.Kinds {
 		if kd == KFail {
@@ -311,9 +322,15 @@ func (gc *GridCase) Build() {
 	}
 
 	// ---- body
+	frc := func(x *Node) *Node {
+		if gc.PassOn {
+			return CallN("force", CallN("force", CallN("force", x)))
+		}
+		return CallN("force", x)
+	}
 	var acts []*Node
 	for i, l := range sh.Lazy {
-		acts = append(acts, action(pat, pname(i, l), l))
+		acts = append(acts, action(pat, pname(i, l), l, frc))
 	}
 	if sh.Variadic {
 		acts = append(acts, Var("r"))
@@ -324,7 +341,7 @@ func (gc *GridCase) Build() {
 		var fs []*Node
 		for i, l := range sh.Lazy {
 			if l {
-				fs = append(fs, CallN("force", Var(pname(i, l))))
+				fs = append(fs, frc(Var(pname(i, l))))
 			} else {
 				fs = append(fs, Var(pname(i, l)))
 			}
@@ -345,6 +362,10 @@ func (gc *GridCase) Build() {
 		// inner call: new argument expressions in the callee's own environment
 		inner := []*Node{CallN("-", Var("n"), Int(1))}
 		for i := 0; i < nargs; i++ {
+			if gc.PassOn && i < k {
+				inner = append(inner, Var(pname(i, sh.Lazy[i])))
+				continue
+			}
 			inner = append(inner, CallN("trace", plus(CallN("*", Var("n"), Int(10)), Int(int64(20+i)))))
 		}
 		call := CallN("f", inner...)
@@ -352,6 +373,20 @@ func (gc *GridCase) Build() {
 			call = CallN("first", CallN("list", call))
 		}
 		body = append(body, Cond(CallN(">", Var("n"), Int(0)), call, core))
+	} else if gc.PassOn {
+		var relay []*Node
+		ncall := k // what f2 is called with: its fixed formals (+ two extras when variadic); the map route has nargs = number of ELEMENTS
+		if sh.Variadic {
+			ncall = k + 2
+		}
+		for i := 0; i < ncall; i++ {
+			if i < k {
+				relay = append(relay, Var(pname(i, sh.Lazy[i])))
+			} else {
+				relay = append(relay, CallN("trace", Int(int64(60+i))))
+			}
+		}
+		body = append(body, CallN("f2", relay...))
 	} else {
 		body = append(body, core)
 	}
@@ -377,6 +412,9 @@ func (gc *GridCase) Build() {
 	bareVal := "I7"
 	if gc.BareSym == "k" || gc.BareSym == "k2" {
 		bareVal = "I0"
+	}
+	if gc.BareSym == "a" {
+		bareVal = "I100"
 	}
 	for i, kd := range gc.Kinds {
 		if bareAt(i) {
@@ -417,7 +455,7 @@ func (gc *GridCase) Build() {
 			op = "map"
 		}
 		call = Begin(Def("coll", Arr(args...)), CallN("list", CallN(op, Var("f"), Var("coll")), Var("coll")))
-	case RRec, RTail, RRedef:
+	case RRec, RTail, RRedef, RTypedTail:
 		call = Call(callee, append([]*Node{Int(2)}, args...)...)
 	default:
 		call = Call(callee, args...)
@@ -444,6 +482,9 @@ func (gc *GridCase) Build() {
 		forms = append(forms, Defn("f", old, rest, Int(0)))
 		gc.Split = len(forms)
 	}
+	if gc.PassOn && !rec {
+		forms = append(forms, Defn("f2", params, rest, core))
+	}
 	forms = append(forms, fdef)
 	forms = append(forms, pre...)
 	forms = append(forms, callerForms...)
@@ -464,8 +505,8 @@ func (gc *GridCase) Build() {
 	case pat == PEscArr && route != RMap:
 		var fs []*Node
 		for i := range sh.Lazy {
-			fs = append(fs, CallN("force", CallN("aget", Var("res"), Int(int64(i)))))
-			fs = append(fs, CallN("force", CallN("aget", Var("res"), Int(int64(i)))))
+			fs = append(fs, frc(CallN("aget", Var("res"), Int(int64(i)))))
+			fs = append(fs, frc(CallN("aget", Var("res"), Int(int64(i)))))
 		}
 		fs = append(fs, Var("cnt"))
 		fs = append(fs, tailItems...)
@@ -474,10 +515,13 @@ func (gc *GridCase) Build() {
 		forms = append(forms, CallN("list", append([]*Node{Var("res"), Var("cnt")}, tailItems...)...))
 	}
 	gc.P = &Program{Forms: forms, FailAt: failAt}
-	if route == RTyped {
+	if route == RTyped || route == RTypedTail {
 		gc.Typed = []string{"f"}
 	}
-	gc.Tags = []string{"stream:grid", "route:" + routeName[route], "pattern:" + patName[pat], "shape:" + sh.String(), "caller:" + callerKindName[gc.Caller], "argvalue:" + vv.name}
+	if gc.PassOn {
+		gc.Tags = append(gc.Tags, "formals-passed-on")
+	}
+	gc.Tags = append(gc.Tags, "stream:grid", "route:"+routeName[route], "pattern:"+patName[pat], "shape:"+sh.String(), "caller:"+callerKindName[gc.Caller], "argvalue:"+vv.name)
 	if gc.BareSym != "" && gc.Bare >= 0 && gc.Bare < nargs && !anyErr {
 		gc.Tags = append(gc.Tags, "barevar:"+gc.BareSym)
 	}
@@ -490,7 +534,7 @@ func (gc *GridCase) Build() {
 
 	// ---- oracle
 	mk := func(i int) string { return fmt.Sprintf("I%d", 110+i) } // marker (traced effect) of outer argument i
-	val := func(i int) string { // value of outer argument i
+	val := func(i int) string {                                   // value of outer argument i
 		if bareAt(i) {
 			return bareVal
 		}
@@ -512,6 +556,7 @@ func (gc *GridCase) Build() {
 		}
 		return items
 	}
+	recFresh := rec && !gc.PassOn // the inner calls get fresh argument expressions: the outer lazy ones are dropped unforced
 	isLazyPos := func(i int) bool { return i < k && sh.Lazy[i] && route != RApply && route != RMap }
 	var cons []string
 	errPos, hasErr := hasErrKind(gc.Kinds)
@@ -558,14 +603,14 @@ func (gc *GridCase) Build() {
 		}
 		if strictErr {
 			cons = append(cons, "err", "zero:I99")
-		} else if !pat.forces() || rec {
+		} else if !pat.forces() || recFresh {
 			// a lazy argument that would fail is never forced (in the recursion routes the outer
 			// lazy arguments are never forced at all)
 			cons = append(cons, "noerr")
 		} else {
 			cons = append(cons, "err")
 		}
-		if rec {
+		if recFresh {
 			// outer lazy arguments are never forced
 			zero = append(zero, max1...)
 			max1 = nil
@@ -591,7 +636,7 @@ func (gc *GridCase) Build() {
 			cnt++
 		}
 	}
-	if rec {
+	if recFresh {
 		// activations n=2 (outer arguments), n=1 (arguments 40+i), n=0 (arguments 30+i; the body runs)
 		for _, lvl := range []int{40, 30} {
 			tr = append(tr, "I99")
@@ -625,7 +670,26 @@ func (gc *GridCase) Build() {
 		gc.Oracle = strings.Join(cons, ";")
 		return
 	}
-	tr = append(tr, "I99")
+	extraVal := val // value of the variadic extras as the body sees them
+	switch {
+	case rec: // formals passed on through two further activations; the extras are fresh at each
+		for _, lvl := range []int{40, 30} {
+			tr = append(tr, "I99")
+			for i := k; i < nargs; i++ {
+				tr = append(tr, fmt.Sprintf("I%d", lvl+i))
+			}
+		}
+		tr = append(tr, "I99")
+		extraVal = func(i int) string { return fmt.Sprintf("I%d", 30+i) }
+	case gc.PassOn: // f relays to f2
+		tr = append(tr, "I99")
+		for i := k; i < nargs; i++ {
+			tr = append(tr, fmt.Sprintf("I%d", 60+i))
+		}
+		extraVal = func(i int) string { return fmt.Sprintf("I%d", 60+i) }
+	default:
+		tr = append(tr, "I99")
+	}
 	if escape {
 		tr = append(tr, "I98")
 	}
@@ -639,10 +703,14 @@ func (gc *GridCase) Build() {
 	}
 	cons = append(cons, "noerr", "trace:"+strings.Join(tr, ","))
 	// the value
-	valueThunk := route == RApply
+	valueThunk := route == RApply && !gc.PassOn
 	var vals []string
 	for i := 0; i < k; i++ {
-		vals = append(vals, actionVal(pat, sh.Lazy[i], val(i), srcDatum(args[i]), valueThunk))
+		src := srcDatum(args[i])
+		if gc.PassOn && sh.Lazy[i] {
+			src = "Y" + pname(i, true) // the source of a formal passed on is the formal's symbol
+		}
+		vals = append(vals, actionVal(pat, sh.Lazy[i], val(i), src, valueThunk))
 	}
 	switch pat {
 	case PEscClos:
@@ -663,7 +731,7 @@ func (gc *GridCase) Build() {
 		if sh.Variadic {
 			var ex []string
 			for i := k; i < nargs; i++ {
-				ex = append(ex, val(i))
+				ex = append(ex, extraVal(i))
 			}
 			vals = append(vals, listVal(ex...))
 		}
@@ -680,6 +748,7 @@ func EachGrid(full bool, emit func(*GridCase)) {
 	crot := 0
 	vrot := 0
 	brot := 0
+	prot := 0
 	for _, sh := range shapes {
 		k := len(sh.Lazy)
 		nargs := k
@@ -690,7 +759,7 @@ func EachGrid(full bool, emit func(*GridCase)) {
 			if route == RMap && k != 1 {
 				continue
 			}
-			if route == RTyped && sh.Variadic {
+			if (route == RTyped || route == RTypedTail) && sh.Variadic {
 				continue
 			}
 			for pat := Pattern(0); pat < nPatterns; pat++ {
@@ -731,24 +800,34 @@ func EachGrid(full bool, emit func(*GridCase)) {
 						kinds = []int{0, 1, 2}
 					}
 					for _, ck := range kinds {
-						gc := &GridCase{Shape: sh, Route: route, Pat: pat, Kinds: nargsHere, Caller: ck, Val: vrot, Bare: -1}
-						vrot++
-						// a bare-variable argument at a rotating position in two grid points of three
-						if b := brot % (len(nargsHere) + 1); vi == 0 && brot%3 != 0 && b < len(nargsHere) {
-							gc.Bare = b
-							gc.BareSym = "w"
-							if ck != 0 && brot%2 == 0 {
-								gc.BareSym = "k"
-								if ck == 2 && brot%4 == 0 {
-									gc.BareSym = "k2"
+						for po := 0; po < 2; po++ {
+							if po == 1 && vi != 0 && !full {
+								continue
+							}
+							if vi != 0 && !full {
+								prot++
+							}
+							gc := &GridCase{Shape: sh, Route: route, Pat: pat, Kinds: nargsHere, Caller: ck, Val: vrot, Bare: -1, PassOn: po == 1 || (vi != 0 && !full && prot%2 == 0)}
+							vrot++
+							// a bare-variable argument at a rotating position in two grid points of three
+							if b := brot % (len(nargsHere) + 1); vi == 0 && brot%3 != 0 && b < len(nargsHere) {
+								gc.Bare = b
+								gc.BareSym = "w"
+								if brot%5 == 0 {
+									gc.BareSym = "a"
+								} else if ck != 0 && brot%2 == 0 {
+									gc.BareSym = "k"
+									if ck == 2 && brot%4 == 0 {
+										gc.BareSym = "k2"
+									}
 								}
 							}
+							if vi == 0 {
+								brot++
+							}
+							gc.Build()
+							emit(gc)
 						}
-						if vi == 0 {
-							brot++
-						}
-						gc.Build()
-						emit(gc)
 					}
 				}
 			}
